@@ -98,21 +98,32 @@ pub fn read_ndjson(path: &str) -> Vec<Value> {
 /// Canonical string of a JSON value in which every array is a set or has at most one element:
 /// object keys sorted (serde_json's map is ordered), arrays sorted by the canonical string of their elements.
 pub fn canonical_set_string(v: &Value) -> String {
-    match v {
-        Value::Array(a) => {
-            let mut items: Vec<String> = a.iter().map(canonical_set_string).collect();
-            items.sort();
-            format!("[{}]", items.join(","))
+    canonical_string(v, &[])
+}
+
+/// Like `canonical_set_string`, except that the arrays found under one of the object keys `seq_keys` are
+/// sequences: the order of their elements is kept.
+pub fn canonical_string(v: &Value, seq_keys: &[&str]) -> String {
+    fn go(v: &Value, seq_keys: &[&str], is_seq: bool) -> String {
+        match v {
+            Value::Array(a) => {
+                let mut items: Vec<String> = a.iter().map(|x| go(x, seq_keys, false)).collect();
+                if !is_seq {
+                    items.sort();
+                }
+                format!("[{}]", items.join(","))
+            }
+            Value::Object(o) => {
+                let mut keys: Vec<&String> = o.keys().collect();
+                keys.sort();
+                let items: Vec<String> = keys
+                    .into_iter()
+                    .map(|k| format!("{}:{}", Value::String(k.clone()), go(&o[k], seq_keys, seq_keys.contains(&k.as_str()))))
+                    .collect();
+                format!("{{{}}}", items.join(","))
+            }
+            other => other.to_string(),
         }
-        Value::Object(o) => {
-            let mut keys: Vec<&String> = o.keys().collect();
-            keys.sort();
-            let items: Vec<String> = keys
-                .into_iter()
-                .map(|k| format!("{}:{}", Value::String(k.clone()), canonical_set_string(&o[k])))
-                .collect();
-            format!("{{{}}}", items.join(","))
-        }
-        other => other.to_string(),
     }
+    go(v, seq_keys, false)
 }
